@@ -317,3 +317,23 @@ Print Assumptions C13_join_builtin_spec.
 Theorem C13_join_expression_spec : ltac:(let T := type of TSemJoinFn.join_expr_spec in exact T).
 Proof. exact TSemJoinFn.join_expr_spec. Qed.
 Print Assumptions C13_join_expression_spec.
+
+(* ------------------------------------------------------------------ for-join PROGRAMS
+   (Compile/TSemSemFullJoin.v, JoinProgram.v): for programs of the corpus shape - main's parameters
+   are the two tables, literal `let mut`s, ONE `for p in join(a, b) { body }` at top level, then the
+   result; [join_covered], a boolean evaluated per program - the bit-level semantics the circuit
+   provably computes agrees with the source semantics Sem.v, under the run-time precondition that the
+   keys of both tables are strictly ascending ([join_inputs_sorted]; shown necessary at program level:
+   JoinProgramExample.unsorted_differs). *)
+From GV Require Import Panic.PanicRec Panic.PanicSem Compile.TSem Compile.TSemSemExpr Compile.TSemSemFull Compile.SemFuel Compile.TSemSemFullJoin Compile.JoinProgram Lang.ValTy.
+From GV Require Lang.Sem.
+
+Theorem C13_for_join_programs_agree_with_the_source_semantics : forall P fuel fw fT args o outs,
+  join_covered fw P = true -> sem_fuel_enough fuel P = true ->
+  join_inputs_sorted P args -> canonical_main_args P args = true ->
+  tsem_program fT P args = Ok (o, outs) ->
+  (exists bits l, Sem.run_main fuel P args = Sem.RunOk bits l /\ o = None /\ outs = bits) \/
+  (exists r m, Sem.run_main fuel P args = Sem.RunPanic r m /\ o = Some (preason_num (pr r), ploc32 (ploc_of m))) \/
+  (frag_program P = false /\ exists c, Sem.run_main fuel P args = Sem.RunStuck c /\ In c stuck_allowed).
+Proof. exact join_covered_agrees. Qed.
+Print Assumptions C13_for_join_programs_agree_with_the_source_semantics.
